@@ -337,6 +337,12 @@ def step (st : St) (line : String) : St × String :=
     match st.w.cell? (idOf r) (natOf c) with
     | some ce => ({ st with w := { st.w with copies := st.w.copies ++ [ce] } }, s!"Y{st.w.copies.length}")
     | none => (st, "nocell")
+  | ["copyobs", y] =>
+    match st.w.copies[idOf y]? with
+    | some ce => (st, obsCell ce)
+    | none => (st, "nocopy")
+  | ["copyupdate", y] =>
+    ({ st with w := { st.w with copies := st.w.copies.modify (idOf y) (fun ce => ce.update x.dw (st.w.item ce.item)) } }, "ok")
   | ["setprop", o, k, v] => ({ st with w := st.w.setProp (parseOwner st.handles o) (parseKey k) (parseVal v) }, "ok")
   | ["getprop", o, k] => (st, showVal (st.w.getProp (parseOwner st.handles o) (parseKey k)))
   | ["chainlen", o] =>
